@@ -1760,6 +1760,15 @@ class PCE500Emulator:
         self._interrupt_stack = list(interrupts.get("stack", []))
         self._next_interrupt_id = int(interrupts.get("next_id", 1))
         self._key_irq_latched = bool(interrupts.get("key_irq_latched", False))
+        # _handle_imem_access compares an IMR/ISR write with the value of the previous
+        # write it saw (a KEYI 1->0 transition consumes the key queue).  The memory image
+        # was restored behind that hook, so reseed it from the restored cells.
+        self._last_imem_values = {
+            "IMR": self.memory.read_byte(INTERNAL_MEMORY_START + IMEMRegisters.IMR)
+            & 0xFF,
+            "ISR": self.memory.read_byte(INTERNAL_MEMORY_START + IMEMRegisters.ISR)
+            & 0xFF,
+        }
         irq_counts = interrupts.get("irq_counts")
         if isinstance(irq_counts, dict):
             self.irq_counts = {key: int(val) for key, val in irq_counts.items()}
